@@ -71,6 +71,31 @@ def expiry_thresholds(secs):
     check(o2.ok and Implies(o.value, o2.value), "expiry never un-happens as time advances")
 
 
+def kf_exact_sentinel(inputs):
+    """The first reading falls on the one instant at which the computed fraction is exactly -1.0."""
+    return inputs["edge_us"] == 0
+
+
+@harness(("C14", "C16"), cases=[(s,) for s in LIFESPANS], quick=lambda s: s in (360, 3600, 86400))
+def expiry_has_no_memory_of_a_clock_that_was_behind(secs):
+    """A message first looked at while the gateway clock was behind the packet's own timestamp (a
+    snapshot restored into a fresh gateway: its clock is the last packet it heard, or 1970) and
+    looked at again later: the second answer is the one its age then calls for.  Only expiry
+    itself is sticky."""
+    first = sym_int("first_us", -10 ** 13, 10 ** 13)
+    edge = sym_int("edge_us", -2 * 10 ** 13, 2 * 10 ** 13)
+    assume(edge == first + (secs - 3) * 10 ** 6)  # (names the distance to the instant where the fraction is exactly -1)
+    later = sym_int("later_us", 0, 10 ** 13)
+    m = make_msg(td(seconds=secs), "30C9", " I", first)
+    o1 = outcome(getattr, m, "_expired")
+    m._gwy.now = T0 + td(microseconds=1) * later
+    o2 = outcome(getattr, m, "_expired")
+    check(o1.ok and o2.ok, "_expired does not raise")
+    lim = 2 * secs * 10 ** 6 + 3 * 10 ** 6
+    check(Implies(And(Not(o1.value), later >= lim), o2.value), "a message first read while the clock was behind still expires when its time has come")
+    check(Implies(And(Not(o1.value), later < lim), Not(o2.value)), "and is not expired before that")
+
+
 @harness("C14", cases=[(v,) for v in ("RQ", " W", " I", "RP")])
 def expiry_of_requests_and_unexpirable(verb):
     """A message whose packet lifespan is False can not expire."""
@@ -242,7 +267,7 @@ class FakeSrc:
         return self.id == other.id
 
 
-@harness("C14")
+@harness(("C14", "C13"))
 def array_fragments_merge_only_within_a_device():
     """dispatcher.detect_array_fragment: a packet is taken for the second half of the previous
     array only if it has the same source device, code and verb I, and follows within 3 s."""
